@@ -9,7 +9,11 @@
      r, v     result of Next (1 | 0) and the value Val must then return (twice)
      caps     per level j < Depth: the largest number of elements level j may have handed
               out so far (ReadAhead: yielded by the Limit above + 1), -1 = unconstrained
-     mincl    per level: Close calls that must have arrived                                    *)
+     mincl    per level: Close calls that must have arrived
+   Structured documents (src "jsond" / "jsondbad"): every document sequence up to DocLen over DocAlpha
+   under every chain up to DocDepth; xs are the documents, v / den the values Decode demands.  The
+   harness keeps every value it was handed and compares ALL of them again after every later step
+   (Iter!OutStable: what has been yielded never changes).                                          *)
 EXTENDS Iter
 CONSTANTS SimLen, SimLimits   \* GSpecSim: sequences up to SimLen, limits from SimLimits
 VARIABLES case, hist, phase
@@ -43,11 +47,15 @@ Shape(run) == /\ Len(run.n) >= 2 /\ run.n[Len(run.n)][1] = 0 /\ run.n[Len(run.n)
 \* the JSON sources differ from the slice only at level 0: they are combined with chains up to MaxDepth-1
 Cases == { [src |-> "slice", layers |-> ls] : ls \in UNION {[1..d -> Layers] : d \in 0..MaxDepth} } \cup
          { [src |-> src, layers |-> ls] : src \in {"json", "jsonbad"},
-                                          ls \in UNION {[1..d -> Layers] : d \in 0..(MaxDepth - 1)} }
-TermsOf(c) == { [src |-> IF c.src = "slice" THEN "slice" ELSE "json", xs |-> xs,
-                 bad |-> IF c.src = "jsonbad" THEN (Len(xs) + 1) \div 2 ELSE 0, layers |-> c.layers] :
-                xs \in Seqs(MaxLen) }
-Runs(c) == { Run(t) : t \in {u \in TermsOf(c) : c.src = "jsonbad" => u.bad > 0} }
+                                          ls \in UNION {[1..d -> Layers] : d \in 0..(MaxDepth - 1)} } \cup
+         { [src |-> src, layers |-> ls] : src \in {"jsond", "jsondbad"},
+                                          ls \in UNION {[1..d -> Layers] : d \in 0..DocDepth} }
+SrcOf(c) == CASE c.src = "slice" -> "slice" [] c.src \in {"json", "jsonbad"} -> "json" [] OTHER -> "jsond"
+BadCase(c) == c.src \in {"jsonbad", "jsondbad"}
+TermsOf(c) == { [src |-> SrcOf(c), xs |-> xs,
+                 bad |-> IF BadCase(c) THEN (Len(xs) + 1) \div 2 ELSE 0, layers |-> c.layers] :
+                xs \in IF SrcOf(c) = "jsond" THEN DocSeqs(DocLen) ELSE Seqs(MaxLen) }
+Runs(c) == { Run(t) : t \in {u \in TermsOf(c) : BadCase(c) => u.bad > 0} }
 
 GInit == case \in Cases /\ hist = <<>> /\ phase = "case" /\ term = [src |-> "slice", xs |-> <<>>, bad |-> 0, layers |-> <<>>]
          /\ st = InitSt(term) /\ out = <<>> /\ last = "none" /\ fin = FALSE /\ nAfter = 0 /\ nClose = 0
@@ -56,7 +64,7 @@ GSpec == GInit /\ [][GNext]_<<vars, case, hist, phase>>
 \* the operational runs agree with the list semantics (else TLC stops: the model is inconsistent)
 Emit == LET rs == Runs(case)
         IN  /\ \A run \in rs : Yielded(run) = run.den /\ Shape(run)
-            /\ PrintT(<<"BEHAVIOUR", ToJson([src |-> IF case.src = "slice" THEN "slice" ELSE "json",
+            /\ PrintT(<<"BEHAVIOUR", ToJson([src |-> SrcOf(case),
                                               layers |-> case.layers, runs |-> rs])>>)
 
 (* ---- simulation: sequences up to 50 values, limits -1..60, random drives -------------------------
@@ -67,15 +75,21 @@ RandLayer(i) == LET k == RandomElement({"map", "filter", "limit"})
              IN  CASE k = "map"    -> [k |-> k, f |-> RandomElement(Maps), p |-> "", n |-> 0]
                    [] k = "filter" -> [k |-> k, f |-> "", p |-> RandomElement(Preds), n |-> 0]
                    [] k = "limit"  -> [k |-> k, f |-> "", p |-> "", n |-> RandomElement(SimLimits)]
+\* a document with every field drawn independently (the full product alphabet), now and then null
+RandDoc(i) == IF RandomElement(1..8) = 1 THEN NullDoc
+              ELSE Obj(RandomElement(AFields(NumsS)), RandomElement(BFields(ArrsT)), RandomElement(MFields(MapsT)))
 RandTerm(src, n, d) ==
-    [src |-> src, xs |-> [i \in 1..n |-> RandomElement(1..6)],
-     bad |-> IF src = "json" /\ n > 0 /\ RandomElement(1..3) = 1 THEN RandomElement(1..n) ELSE 0,
+    [src |-> src, xs |-> IF src = "jsond" THEN [i \in 1..n |-> RandDoc(i)] ELSE [i \in 1..n |-> RandomElement(1..6)],
+     bad |-> IF src # "slice" /\ n > 0 /\ RandomElement(1..3) = 1 THEN RandomElement(1..n) ELSE 0,
      layers |-> [i \in 1..d |-> RandLayer(i)]]
 Fresh == /\ st = InitSt(term) /\ out = <<>> /\ last = "none" /\ fin = FALSE /\ nAfter = 0 /\ nClose = 0
 SInit == /\ case = 0 /\ hist = <<>> /\ phase = "build"
          /\ term = [src |-> "slice", xs |-> <<>>, bad |-> 0, layers |-> <<>>] /\ Fresh
 Build == /\ phase = "build"
-         /\ \E src \in {"slice", "json"}, n \in {m \in SimLens : m <= SimLen}, d \in 0..MaxDepth :
+         \* one random draw (state-dependent sets: TLC would evaluate a constant RandomElement only once)
+         /\ \E src \in {RandomElement({x \in {"slice", "json", "jsond"} : Len(hist) >= 0})},
+               n \in {RandomElement({m \in SimLens : m <= SimLen /\ Len(hist) >= 0})},
+               d \in {RandomElement({x \in 0..MaxDepth : Len(hist) >= 0})} :
                term' = RandTerm(src, n, d)
          /\ st' = InitSt(term') /\ phase' = "drive"
          /\ UNCHANGED <<out, last, fin, nAfter, nClose, case, hist>>
